@@ -18,21 +18,31 @@ NUM_POOL = [0, 1, 2.5, -3, 10, 7, 100]
 class WB:
     """sheet 'S': inputs (constants) and formulas; every formula refers to earlier cells only"""
 
-    def __init__(self, inputs, formulas, name=''):
+    def __init__(self, inputs, formulas, name='', arrays=None):
         self.inputs = dict(inputs)          # 'A1' -> value
         self.formulas = dict(formulas)      # 'B1' -> '=A1+1'  (insertion order = dependency order)
+        self.arrays = dict(arrays or {})    # 'C1' -> ('C1:C3', '=A1:A3*2')   CSE array formulas (origin cell -> ref, text)
         self.name = name
 
+    def array_cells(self):
+        out = []
+        for ref, _ in self.arrays.values():
+            a, b = ref.split(':')
+            for r in range(int(a[1:]), int(b[1:]) + 1):
+                for c in range(ord(a[0]), ord(b[0]) + 1):
+                    out.append(f'{chr(c)}{r}')
+        return out
+
     def cells(self):
-        return list(self.inputs) + list(self.formulas)
+        return list(self.inputs) + list(self.formulas) + self.array_cells()
 
     def with_inputs(self, values):
-        w = WB(self.inputs, self.formulas, self.name)
+        w = WB(self.inputs, self.formulas, self.name, self.arrays)
         w.inputs.update(values)
         return w
 
     def __repr__(self):
-        return f'WB({self.name}: {self.inputs} {self.formulas})'
+        return f'WB({self.name}: {self.inputs} {self.formulas}' + (f' arrays={self.arrays}' if self.arrays else '') + ')'
 
 
 def addr(c):
@@ -75,6 +85,31 @@ def grammar(rnd, n, numeric=False, with_unbounded=True, with_text=True):
     return out
 
 
+def cse_grammar(rnd, n):
+    """workbooks with CSE array formulas next to ordinary cells that take ranges"""
+    out = []
+    for k in range(n):
+        iv = [rnd.choice([1, 2, 3, 5, 10, -3, 2.5]) for _ in range(4)]
+        kind = k % 4
+        if kind == 0:     # an ordinary cell with a range argument, used by an array formula
+            out.append(WB({'A1': iv[0], 'A2': iv[1], 'A3': iv[2]},
+                          {'B1': '=IFERROR(A1:A3,9)', 'D1': '=SUM(C1:C3)'}, 'cse-col',
+                          {'C1': ('C1:C3', '=A1:A3+B1')}))
+        elif kind == 1:   # the same array formula text entered twice, ordinary cells in between
+            out.append(WB({'A1': iv[0], 'B1': iv[1]},
+                          {'C2': '=A1+100', 'D2': '=B1+200', 'F1': '=SUM(C1:D3)'}, 'cse-copied',
+                          {'C1': ('C1:D1', '=$A$1:$B$1*2'), 'C3': ('C3:D3', '=$A$1:$B$1*2')}))
+        elif kind == 2:   # 2-D array
+            out.append(WB({'A1': iv[0], 'B1': iv[1], 'A2': iv[2], 'B2': iv[3]},
+                          {'G1': '=D1+E2', 'G2': '=IF(A1:B2>2,1,0)'}, 'cse-2d',
+                          {'D1': ('D1:E2', '=A1:B2*2')}))
+        else:             # array over formula cells
+            out.append(WB({'A1': iv[0], 'A2': iv[1]},
+                          {'B1': '=A1+1', 'B2': '=IFNA(A1:A2,0)+A2', 'E1': '=MAX(D1:D2)'}, 'cse-over-formulas',
+                          {'D1': ('D1:D2', '=B1:B2*A1')}))
+    return out
+
+
 # -- obtaining a model ---------------------------------------------------------------------------------
 
 def to_openpyxl(wb):
@@ -86,6 +121,10 @@ def to_openpyxl(wb):
         ws[c] = v
     for c, f in wb.formulas.items():
         ws[c] = f
+    if wb.arrays:
+        from openpyxl.worksheet.formula import ArrayFormula
+        for c, (ref, text) in wb.arrays.items():
+            ws[c] = ArrayFormula(ref, text)
     return book
 
 
